@@ -494,6 +494,25 @@ class Repair(Suite):
             # the first root not in the first row (second warning of read_swc): row 0 changes places with a non-root row before every other
             # root; the first root keeps the smallest id (see design_notes/session4/repair.md for what reset_index_ does otherwise)
             c = out[-1]
+            # the first root does NOT carry the smallest id (seed C18_m17: the fragment listed first uses the larger ids): the ids of the first root's
+            # component are moved above all others, rows stay where they are.  Kept to tables where no row names `first root's id - 1` as its
+            # parent — that one parent is what `reset_index_` turns into -1 at HEAD (design_notes/session4/repair.md, possible defect, not in the oracle)
+            if sum(1 for x in c["pids"] if x == -1) >= 2 and rng.random() < 0.3:
+                comp2, _ = components(n, p)
+                fr = next(k for k in range(n) if p[k] == -1)
+                lo = [k for k in range(n) if comp2[k] != comp2[fr]]
+                hi_rows = [k for k in range(n) if comp2[k] == comp2[fr]]
+                new_id = {}
+                for rk, k in enumerate(lo):
+                    new_id[k] = base + rk
+                for rk, k in enumerate(hi_rows):
+                    new_id[k] = base + len(lo) + rk
+                nids = [new_id[k] for k in range(n)]
+                npids = [-1 if p[k] == -1 else new_id[p[k]] for k in range(n)]
+                if nids[fr] >= 2 and (nids[fr] - 1) not in npids:
+                    c["ids"], c["pids"] = nids, npids
+                    c["class"] += "/first-root-not-min"
+                    continue
             others = [k for k in range(1, n) if c["pids"][k] == -1]
             hi = min(others) if others else n
             if hi > 1 and rng.random() < 0.2:
@@ -609,6 +628,13 @@ class Repair(Suite):
                 # re-based read keeps every root's -1
                 if [p == -1 for p in r["reset_pid"]] != [p == -1 for p in pids]:
                     out.append(("reset-index-roots", f"reset_index changed which nodes are roots: {pids} → {r['reset_pid']}"))
+                # ... and every edge: the re-based parent of a row is the re-based id of its original parent's row
+                pos0 = {v: k for k, v in enumerate(ids)}
+                if len(r["reset_id"]) == n and len(r["reset_pid"]) == n and len(set(r["reset_id"])) == n and (ids[first_root] - 1) not in pids:
+                    for k in range(n):
+                        if pids[k] != -1 and pids[k] in pos0 and r["reset_pid"][k] != r["reset_id"][pos0[pids[k]]]:
+                            out.append(("reset-index-edges", f"reset_index: row {k} had parent id {pids[k]} (row {pos0[pids[k]]}); afterwards its parent "
+                                                             f"is {r['reset_pid'][k]} but that row's id is {r['reset_id'][pos0[pids[k]]]}")); break
                 continue
             # repaired: single root = first root; original edges kept; acyclic & connected
             rp = r["pid"]
@@ -651,7 +677,9 @@ class Reread(Suite):
 
     def cases(self, rng, tier, widen):
         big = tier == "thorough" or widen
-        forests = [c for c in Repair().cases(rng, "quick", False) if sum(1 for p in c["pids"] if p == -1) >= 2]
+        # (not the `/first-root-not-min` tables: a REPAIRED link may name `first root's id - 1`, which reset_index_ turns into a second root at HEAD —
+        # design_notes/session4/repair.md, possible defect of the library, reported there with its replay, not part of this oracle)
+        forests = [c for c in Repair().cases(rng, "quick", False) if sum(1 for p in c["pids"] if p == -1) >= 2 and "/first-root-not-min" not in c["class"]]
         out = []
         for k, f in enumerate(forests[:(90 if big else 36)]):
             opt = lambda: {"mode": rng.choice([False, False, "somas", "nearest"]), "reset": rng.random() < 0.5, "sort": rng.random() < 0.15}
